@@ -25,6 +25,8 @@ Proof. destruct a, b; cbn; split; congruence. Qed.
 Definition optZ_truthy (o : option Z) : bool := match o with None => false | Some z => negb (Z.eqb z 0) end.
 Definition optZ_eqb (a b : option Z) : bool :=
   match a, b with None, None => true | Some x, Some y => Z.eqb x y | _, _ => false end.
+Definition optstr_eqb (a b : option str) : bool :=
+  match a, b with None, None => true | Some x, Some y => str_eqb x y | _, _ => false end.
 Definition optN_eqb (a b : option N) : bool :=
   match a, b with None, None => true | Some x, Some y => N.eqb x y | _, _ => false end.
 
